@@ -209,4 +209,17 @@ func (pm *ProviderManager) gcLoop(ctx context.Context)
   modifies *
   ensures [exit-is-announced] tagged("closed:pm.closed")
   ensures [exit-only-on-cancel] tagged("recv:ctx.Done()")
+
+# C14: a successfully built provider manager always has its GC loop running -
+# that loop is the only one to announce `closed`, which Close waits for
+# unconditionally (also when periodic GC is disabled); an error return has
+# started nothing.
+func NewProviderManager(local peer.ID, ps peerstore.Peerstore, dstore ds.Batching, opts ...Option) (*ProviderManager, error)
+  props C14 C07
+  constructor
+  ghostvar $spawned bool = false
+  modifies *
+  ensures [internal-success-starts-the-loop-close-waits-for] imp(result1 == nil, $spawned && result0 != nil)
+  ensures [internal-error-starts-nothing] imp(result1 != nil, !$spawned)
+  ghost at go(gcLoop): $spawned = true
 @*/
